@@ -667,6 +667,16 @@ Proof.
   - cbn in Hcl. rewrite (put_foreign_unfold w n b Hcl). destruct (str_eqb n (active_name c)); exact H.
 Qed.
 
+(* what one Write adds to the history: exactly one record, the payload followed by its newline, whatever rotations precede it *)
+Lemma write_hist w ty p : Inv2 w ->
+  hist (step w (Write ty p)) = hist w ++ [{| rbytes := p ++ [10%N]; rid := length (hist w); rday := day_of (now w) |}].
+Proof.
+  intros I. cbn [step]. rewrite write_unfold.
+  destruct (pre_mid (fun w' => hist w' = hist w) (fun _ _ _ H => H)
+              (fun w' _ _ _ H => eq_trans (rotateS_hist w') H) w (Z.of_nat (length p) + 1) I eq_refl) as (_ & H3 & _).
+  unfold append; cbn [hist]. rewrite H3. reflexivity.
+Qed.
+
 (* ---------- files outside the name scheme ---------- *)
 Lemma rotate_foreign w : foreign (rotate w) = foreign w.
 Proof.
@@ -1325,6 +1335,24 @@ Proof.
   unfold run. generalize (w0 c t0). induction ops as [|o ops IH]; intros w; cbn [map fold_left]; [reflexivity|].
   rewrite step_retype. apply IH.
 Qed.
+(* a message with a formatted text (set, possibly EMPTY) and a raw text: the record written is the SHOWN text + newline - the
+   formatted text when one is set, else the raw text; the raw text of a formatted message is irrelevant *)
+Lemma run_snoc sh c t0 ops o : run sh c t0 (ops ++ [o]) = step sh c (run sh c t0 ops) o.
+Proof. unfold run. rewrite fold_left_app. reflexivity. Qed.
+Theorem T_shown_text_written sh c t0 ops ty raw fmt : shape_eqb sh std_shape = true -> clean c ops ->
+  let w := run sh c t0 ops in
+  hist (run sh c t0 (ops ++ [WriteMsg ty raw fmt])) =
+  hist w ++ [{| rbytes := shown_text raw fmt ++ [10%N]; rid := length (hist w); rday := day_of c (now w) |}].
+Proof.
+  intros Hsh H. cbn zeta. rewrite run_snoc, (shape_eqb_eq sh Hsh). unfold WriteMsg.
+  apply write_hist. exact (run_inv2 c t0 ops H).
+Qed.
+Theorem T_raw_text_irrelevant sh c t0 ops ty raw raw' f :
+  run sh c t0 (ops ++ [WriteMsg ty raw (Some f)]) = run sh c t0 (ops ++ [WriteMsg ty raw' (Some f)]).
+Proof. reflexivity. Qed.
+Lemma clean_write_msg c ops ty raw fmt : clean c ops -> clean c (ops ++ [WriteMsg ty raw fmt]).
+Proof. intros H. apply Forall_app; split; [exact H|constructor; [exact I|constructor]]. Qed.
+
 Lemma clean_retype c f ops : clean c ops -> clean c (map (retype f) ops).
 Proof.
   unfold clean. intros H. rewrite Forall_forall in *. intros o Ho. apply in_map_iff in Ho as (o' & <- & Ho').
